@@ -81,7 +81,7 @@ MANIFEST_CHECKS = {
     "C13": {
         "text": "Seeded search over lifecycle histories with nested/sequential/re-entered Calibration and disable_extensions blocks, exceptions (Exception and KeyboardInterrupt class) injected at module boundaries, at aten calls and at python lines inside forward, plus sweep batches that enumerate every module- and aten-level fault position of a marked forward. Ambient registries/mode stacks compared entry by entry around every block, state digests around every inference and library call, bit-identical re-evaluation. Evidence of absence over the explored histories, not proof.",
         "design_ref": "DESIGN.md section 5 (C13), 3.3 (faults), 3.4 (oracles)",
-        "note": "Trusted: torch hook/mode-stack semantics, the harness's own observers (shown transparent by ./selftest transparency). Faults inside __enter__/__exit__ and non-LIFO exits are out of scope.",
+        "note": "Trusted: torch hook/mode-stack semantics, the harness's own observers (shown transparent by ./selftest transparency). Two different Calibration objects left outer-first, the caller's own global hooks / function mode around blocks and library calls that refuse their arguments are part of the histories. Faults inside __enter__/__exit__ are out of scope.",
         "technique": "deterministic simulation with fault injection: seeded history search + enumerated fault positions, replayable plans",
     },
 }
@@ -102,7 +102,7 @@ MANIFEST_CHECKS.update(
             "technique": _TECH,
         },
         "C10": {
-            "text": "Seeded save/load histories through three serializers onto a simulated disk (real files in a scratch directory, in-memory pickles), with restart (only the file survives), key-order permutation, failed-then-retried writes, repeated cycles and three kinds of load target; state_dict equality, field equality and bit-identical outputs against the pre-save memo.",
+            "text": "Seeded save/load histories through three serializers onto a simulated disk (real files in a scratch directory, in-memory pickles, state_dicts handed over in memory or read once and kept by the caller), with restart (only the file survives), key-order permutation, failed-then-retried writes, repeated cycles and three kinds of load target; state_dict equality, field equality and bit-identical outputs against the pre-save memo.",
             "design_ref": "DESIGN.md section 5 (C10)",
             "note": "Bit equality only. Restart is an in-process rebuild with a different init seed. Torn/corrupted files are out of scope.",
             "technique": _TECH,
@@ -110,7 +110,7 @@ MANIFEST_CHECKS.update(
         "C11": {
             "text": "Seeded histories of training steps, in-place weight updates, forwards and freezes; gradients reaching each quantized module's input, weight and bias compared with an independently built float64 straight-through graph (per module, on the upstream gradient that actually arrived) under an analytic bound; frozen weights/scales must stay gradient-free; freshness of the dynamic quantized weight after every update.",
             "design_ref": "DESIGN.md section 5 (C11)",
-            "note": "Trusted: torch autograd in float64 as reference. No fault batch (nothing in the property speaks about faults).",
+            "note": "Trusted: torch autograd in float64 as reference. No injected-fault batch (nothing in the property speaks about faults); calls the library refuses (documented ValueErrors caught by the caller) are part of the histories, and training runs in the process' ambient grad mode.",
             "technique": _TECH,
         },
         "C12": {
